@@ -573,6 +573,7 @@ def histories(draw):
 
 
 from props.ble_layers import C08_BLE_LAYERS as _BLE08  # noqa: E402
+from props.coap_layers import C08_COAP_LAYERS as _COAP08  # noqa: E402
 
 SPEC = Property(
     P, "exploration",
@@ -591,6 +592,7 @@ SPEC = Property(
         Layer("two-pairings", run_two, enumerate=enum_two, exhaustive=True,
               space="two pairings in one process, B with a request outstanding and its response half delivered, while A's connection sees one of 9 disturbances; both creation orders", min_nontrivial=10),
         *_BLE08,
+        *_COAP08,
         Layer("pipelined-protocol", run_pipelined, strategy=pipelined_cases, n={"quick": 1000, "thorough": 20000}),
     ],
     assumptions=["event-loop-callback granularity on a zero-latency in-memory network",
